@@ -368,6 +368,10 @@ def c03_jobs(tier):
                         pas = pats
                         pbs = [pats[0], pats[3], pats[5]] if op in (0, 1, 2, 10, 12) else [pats[0]]
                         prs = [pats[0], pats[4], pats[2]]
+                        if not quick:
+                            # thorough: all patterns of a, two of b and of the receiver's prior content
+                            pbs = [pbs[0], pbs[-1]] if len(pbs) > 1 else pbs
+                            prs = [pats[0], pats[2]]
                         if quick:
                             pas = [pats[0], pats[3], pats[5], pats[6]]
                             pbs = pbs[:2]
